@@ -326,6 +326,17 @@ func execHistCase(c *Sx, env *execEnv) (*Sx, []Violation) {
 			return out, viols // the engine may be left inconsistent
 		}
 		out.Add(Ls(At("r"), res, cacheSx(pe), anpOrderSx(pe)))
+		// ---- oracle P: the admin policies the engine walks are in the order of their priorities, after every operation
+		prev, prevName := -1, ""
+		for _, n := range eval.VerifSortedANPNames(pe) {
+			if o, ok := tr.objs["anp/"+n]; ok && o.Anp != nil {
+				if o.Anp.Prio < prev {
+					rep("C15", "anp-order-not-by-priority", fmt.Sprintf("step %d %s: the engine holds %s (priority %d) before %s (priority %d)", step, op.String(), prevName, prev, n, o.Anp.Prio), step)
+					break
+				}
+				prev, prevName = o.Anp.Prio, n
+			}
+		}
 	}
 	return out, viols
 }
